@@ -552,6 +552,46 @@ func c06RowCase(r *fw.Rec, rd *c06Reader, n int) {
 	}
 }
 
+// c06RowTail: rows that END inside (or right behind) the last modules of a valid symbol, at
+// every pixel of its last 14 modules, with 0..2 white pixels behind, left-padded so that the
+// row length is 0, 1 or 31 modulo 32: what a reader looks at "after the symbol" is then the
+// end of the row's storage.
+func c06RowTail(r *fw.Rec, rd *c06Reader, k int) {
+	rng := r.Rng
+	kind := rd.kinds[rng.Intn(len(rd.kinds))]
+	sym := c06SymbolFor(rng, rd, kind)
+	if sym == nil || !sym.oneD {
+		return
+	}
+	dec := rd.mk(nil).(oned.RowDecoder)
+	for scale := 1; scale <= 3; scale++ {
+		var px []bool
+		for _, m := range sym.mods[0] {
+			for i := 0; i < scale; i++ {
+				px = append(px, m)
+			}
+		}
+		for cut := len(px); cut >= len(px)-14*scale && cut > 0; cut-- {
+			for trail := 0; trail <= 2; trail++ {
+				for _, mod := range []int{0, 1, 31} {
+					n := 10*scale + cut + trail
+					pad := ((mod-n)%32 + 32) % 32
+					row := make([]bool, 0, n+pad)
+					row = append(row, make([]bool, 10*scale+pad)...)
+					row = append(row, px[:cut]...)
+					row = append(row, make([]bool, trail)...)
+					desc := fmt.Sprintf("%s, scale %d, row ends %d pixel(s) before the end of the symbol + %d white, length %d", sym.desc, scale, len(px)-cut, trail, len(row))
+					if !c06RowCall(r, rd, dec, row, "own/ends-in-the-last-modules", desc, nil, "nil", 0) {
+						return
+					}
+					r.Tally("rows ending in the last modules of a symbol, length 0/1/31 mod 32")
+				}
+			}
+		}
+	}
+	r.Nontrivial(fmt.Sprintf("%s|rowtail|%d", rd.name, k))
+}
+
 // c06RowExhaustive: every row of the given length.
 func c06RowExhaustive(r *fw.Rec, rd *c06Reader, length int) {
 	dec := rd.mk(nil).(oned.RowDecoder)
@@ -835,6 +875,47 @@ func c06AzDecOne(r *fw.Rec) bool {
 	}
 	r.NontrivialH(hash64s("azdec|" + desc + fmt.Sprint(w, h, s, nbData, rng.Uint64())))
 	return c06Judge(r, target, fmt.Sprintf("%s(%dx%d matrix, compact=%v, layers=%d, nbDatablocks=%d [%s])", target, w, h, s.Compact, s.Layers, nbData, desc), res != nil, err, msg, stack, panicked, false, data)
+}
+
+// c06AzDecSweep: every symbol size x the data-block counts a mode message can announce at the
+// boundaries (1.., around the word-size classes, around the symbol's own total, the largest
+// announceable count), on arbitrary content of the right size.
+func c06AzDecSweep(r *fw.Rec, s azref.Spec) bool {
+	rng := r.Rng
+	T := s.TotalWords()
+	announce := 2048
+	if s.Compact {
+		announce = 64
+	}
+	counts := []int{1, 2, 3, 4, 8, 16, 32, 64, 80, 81, 100, T / 2, T - 4, T - 3, T - 2, T - 1, T, T + 1, announce - 1, announce}
+	for i := 0; i < 4; i++ {
+		counts = append(counts, 1+rng.Intn(announce))
+	}
+	target := "aztec/decoder.Decode"
+	for _, nbData := range counts {
+		if nbData < 1 || nbData > announce {
+			continue
+		}
+		m := c06RandomMatrix(rng, s.Size(), s.Size())
+		var res interface{}
+		var err error
+		msg, stack, panicked := fw.Guard(func() {
+			dr, e := azdec.NewDecoder().Decode(azdet.NewAztecDetectorResult(c06BitMatrix(m), nil, s.Compact, nbData, s.Layers))
+			err = e
+			if dr != nil {
+				res = dr
+			}
+		})
+		data := func() map[string]interface{} {
+			return map[string]interface{}{"matrix": c06MatrixText(m), "width": s.Size(), "height": s.Size(), "compact": s.Compact, "layers": s.Layers, "nb_datablocks": nbData, "source": "size x announced-count sweep"}
+		}
+		r.Tally("aztec/decoder.Decode size x announced data-block count sweep")
+		r.NontrivialH(hash64s(fmt.Sprint("azsweep|", s, nbData)))
+		if !c06Judge(r, target, fmt.Sprintf("%s(random %dx%d matrix, compact=%v, layers=%d, nbDatablocks=%d)", target, s.Size(), s.Size(), s.Compact, s.Layers, nbData), res != nil, err, msg, stack, panicked, false, data) {
+			return false
+		}
+	}
+	return true
 }
 
 // ---------------------------------------------------------------------------
@@ -1323,7 +1404,7 @@ func c06AzECI(r *fw.Rec, lo, hi, step int) {
 // ---------------------------------------------------------------------------
 
 func c06(c *fw.Ctx) {
-	c.Rule("19 reader configurations (QR, Data Matrix, Aztec, QR multi reader through Decode and DecodeMultiple, EAN-13, EAN-8, UPC-A, UPC-E, multi-format UPC/EAN with and without POSSIBLE_FORMATS, Code 39 x {check, extended}, Code 93, Code 128, ITF, Codabar, RSS-14), each on seeded images through BOTH the hybrid and the global-histogram binariser: valid symbols of the reader's symbology (library writers, qrref/dmref/azref/onedref, an RSS-14 encoder) unmutated in a scanner-friendly rendering, or mutated at module level (flips, row/column deletion and duplication, crops through finder/guards, pasted noise, truncation, mirroring/inversion, combinations) and rendered with scale 1-4, quiet zone 0-10, arbitrary grey levels incl. low contrast, grey ramps, pixel noise and flips, alpha (NRGBA constant / noisy / symbol carried by alpha), RGBA tints, Gray16, Paletted, sub-images with a non-zero origin, canvases of 39/40/41 pixels and up to 800 pixels, one image in five turned by an arbitrary angle / sheared / scaled by a real factor; every second case keeps one reader instance for all its images; symbols of other symbologies; synthetic images (noise, constant, 1x1..3x3, stripes, checkerboards, finder look-alikes); hint maps over all twelve decode hints with well-typed values. Every RowDecoder on rows (random runs of length 1..400, symbol rows clean / with odd margins / mutated / ending mid-symbol, every row of length 1..12). The three raw decoders on valid, mutated, arbitrary, tiny and non-square matrices (Aztec: all 36 sizes, matching and non-matching matrix sizes and data-block counts). The three bit-stream parsers on random bytes/bits, reference-encoded streams cut after every bit (byte for Data Matrix), hostile segment sequences, every QR mode nibble x version class, every ECI designator 0..999999 (QR: every byte form; Aztec: FLG(n) digits), every Data Matrix stream of up to two codewords (thorough: three after each latch), every Aztec bit string up to 14 (thorough: 18) bits. Structured-append QR symbol sets (2..4 members built by qrref, byte/alphanumeric/numeric/kanji data, optional ECI, complete and incomplete) side by side through DecodeMultiple and single members through QRCodeReader. Three QR entry points on images tiled with finder patterns of growing side 40..520 with the CPU time of each call measured. Per call: recover(), CPU/heap budget, exactly one of result/error, and for the image-level readers an error of the NotFound/Checksum/Format kinds. distinct = distinct (target, input description, hints)")
+	c.Rule("19 reader configurations (QR, Data Matrix, Aztec, QR multi reader through Decode and DecodeMultiple, EAN-13, EAN-8, UPC-A, UPC-E, multi-format UPC/EAN with and without POSSIBLE_FORMATS, Code 39 x {check, extended}, Code 93, Code 128, ITF, Codabar, RSS-14), each on seeded images through BOTH the hybrid and the global-histogram binariser: valid symbols of the reader's symbology (library writers, qrref/dmref/azref/onedref, an RSS-14 encoder) unmutated in a scanner-friendly rendering, or mutated at module level (flips, row/column deletion and duplication, crops through finder/guards, pasted noise, truncation, mirroring/inversion, combinations) and rendered with scale 1-4, quiet zone 0-10, arbitrary grey levels incl. low contrast, grey ramps, pixel noise and flips, alpha (NRGBA constant / noisy / symbol carried by alpha), RGBA tints, Gray16, Paletted, sub-images with a non-zero origin, canvases of 39/40/41 pixels and up to 800 pixels, one image in five turned by an arbitrary angle / sheared / scaled by a real factor; every second case keeps one reader instance for all its images; symbols of other symbologies; synthetic images (noise, constant, 1x1..3x3, stripes, checkerboards, finder look-alikes); hint maps over all twelve decode hints with well-typed values. Every RowDecoder on rows (random runs of length 1..400, symbol rows clean / with odd margins / mutated / ending mid-symbol, rows ending at every pixel of a symbol's last 14 modules with the row length 0/1/31 modulo 32, every row of length 1..12). The three raw decoders on valid, mutated, arbitrary, tiny and non-square matrices (Aztec: all 36 sizes, matching and non-matching matrix sizes and data-block counts, plus every size x the boundary data-block counts a mode message can announce). The three bit-stream parsers on random bytes/bits, reference-encoded streams cut after every bit (byte for Data Matrix), hostile segment sequences, every QR mode nibble x version class, every ECI designator 0..999999 (QR: every byte form; Aztec: FLG(n) digits), every Data Matrix stream of up to two codewords (thorough: three after each latch), every Aztec bit string up to 14 (thorough: 18) bits. Structured-append QR symbol sets (2..4 members built by qrref, byte/alphanumeric/numeric/kanji data, optional ECI, complete and incomplete) side by side through DecodeMultiple and single members through QRCodeReader. Three QR entry points on images tiled with finder patterns of growing side 40..520 with the CPU time of each call measured. Per call: recover(), CPU/heap budget, exactly one of result/error, and for the image-level readers an error of the NotFound/Checksum/Format kinds. distinct = distinct (target, input description, hints)")
 	c.Assume("hint values have the Go types the readers assert (flag hints: any value incl. nil, as documented; CHARACTER_SET: string or encoding.Encoding; []gozxing.BarcodeFormat; []int; gozxing.ResultPointCallback incl. a nil one); images are at least 1x1, rows at least 1 long; Aztec detector results name 1..32 layers (compact 1..4) and at least one data block")
 	c.Assume("budget: the framework's 20 CPU-s / 1.5 GiB per case; in the tiled-finder-pattern cases one call needing more than 2 CPU-s on an image of at most 520x520 pixels is charged (signature <target>:budget:tiled-finder-patterns) because the following sizes of the escalation exceed the case budget (measured: DecodeMultiple 200x200 = 50 CPU-s)")
 	c.Assume("DESIGN C06 don't-care: DecodeMultiple returning an empty non-nil slice with nil error; raw decoders, row decoders and parsers may return any non-nil error (kind tallied, not charged); results are not checked for content")
@@ -1378,6 +1459,10 @@ func c06(c *fw.Ctx) {
 			length := length
 			c.Run(fmt.Sprintf("rowexh/%s/%d", rd.name, length), func(r *fw.Rec) { c06RowExhaustive(r, rd, length) })
 		}
+		for k := 0; k < 4; k++ {
+			k := k
+			c.Run(fmt.Sprintf("rowtail/%s/%d", rd.name, k), func(r *fw.Rec) { c06RowTail(r, rd, k) })
+		}
 		c.Floor(rd.name+".DecodeRow result", 500)
 		c.Floor(rd.name+".DecodeRow errors", 5000)
 	}
@@ -1424,6 +1509,12 @@ func c06(c *fw.Ctx) {
 			}
 		})
 	}
+	for si, spec := range azref.AllSpecs() {
+		spec := spec
+		c.Run(fmt.Sprintf("azsweep/%d", si), func(r *fw.Rec) { c06AzDecSweep(r, spec) })
+	}
+	c.Floor("aztec/decoder.Decode size x announced data-block count sweep", 700)
+	c.Floor("rows ending in the last modules of a symbol, length 0/1/31 mod 32", 20000)
 	for _, t := range []string{"qrcode/decoder.Decode", "datamatrix/decoder.Decode", "aztec/decoder.Decode"} {
 		c.Floor(t+" result", 300)
 		c.Floor(t+" errors", 1000)
